@@ -264,7 +264,12 @@ def finish(pid, tier, results, wall, verbose=True):
         ev['coverage']['distinct_nontrivial'] = sum(b['distinct_cases'] for b in bounded_recs)
         ev['coverage']['rule'] = ('bounded run-time contract check of the real function: inputs from the seeded generator in '
                                   'harness/gens.py that satisfy the requires clauses; distinct = different generated inputs')
-    if n == 0 and bounded_recs:
+    claimed_category = None
+    try:
+        claimed_category = json.load(open(os.path.join(VERIF, 'tools', 'claimed.json'))).get(pid, {}).get('category')
+    except Exception:      # noqa
+        pass
+    if (n == 0 or claimed_category == 'exploration') and bounded_recs:
         # nothing is proved for this property: the evidence is that of a bounded exploration, and says so
         ev['level'] = 'exploration'
         ev['coverage']['samples'] = [s for b in bounded_recs for s in b['samples']][:6] or [{'note': 'no case generated'}]
